@@ -1,6 +1,7 @@
 package rules
 
 import (
+	"go/constant"
 	"fmt"
 	"go/token"
 	"sort"
@@ -246,6 +247,127 @@ func runC17(c *core.Ctx, r *core.Reporter) {
 	guardedBy(c, r, "C17.guard.generic", genericPath, "Aux", []string{"cache", "methods", "defaultCaller"}, "moo",
 		"every read or write of Aux.cache, Aux.methods and Aux.defaultCaller happens with Aux.moo of the same Aux value held", 8)
 	c17run(c, r)
+	c17relock(c, r)
+}
+
+// c17relock: turning synchronisation on installs a new mutex. Doing that on an instance that is already
+// synchronised replaces a lock other routines may hold or wait on.
+func c17relock(c *core.Ctx, r *core.Reporter) {
+	const rule = "C17.relock"
+	r.Rule(rule, "in the Call method of every registered built-in, a call that turns synchronisation on for an instance taken from the arguments (SetSynchronized with an argument that is not the constant false) is reached only through a branch on which Synchronized() of the same instance returned false: installing a new mutex on a synchronised instance drops the lock other routines hold", 1)
+	an := lenflow.New(c)
+	for _, b := range c.Registry() {
+		if b.Call == nil {
+			continue
+		}
+		fn := c.SSAFunc(b.Call)
+		if fn == nil {
+			continue
+		}
+		var g *core.Guards
+		n := 0
+		for _, bb := range fn.Blocks {
+			for _, in := range bb.Instrs {
+				call, ok := in.(*ssa.Call)
+				if !ok || callMethodName(call) != "SetSynchronized" {
+					continue
+				}
+				recv := callReceiver(call)
+				if recv == nil {
+					continue
+				}
+				var arg ssa.Value
+				if call.Call.IsInvoke() {
+					if len(call.Call.Args) > 0 {
+						arg = call.Call.Args[0]
+					}
+				} else if len(call.Call.Args) > 1 {
+					arg = call.Call.Args[1]
+				}
+				if k, isK := arg.(*ssa.Const); isK && k.Value != nil && k.Value.Kind() == constant.Bool && !constant.BoolVal(k.Value) {
+					continue
+				}
+				// only instances taken from the arguments: a fresh instance (result of a constructor) is not shared yet
+				if !fromArgs(recv, 0) {
+					continue
+				}
+				if g == nil {
+					g = core.ComputeGuards(fn, an.NoReturn)
+				}
+				guarded := false
+				for f := range g.Facts(bb) {
+					// Synchronized() == false: `if !x.Synchronized()` lowers to If(call) with the false edge taken,
+					// or If(not call) with the true edge taken
+					cond := f.If.Cond
+					want := false
+					if u, isNot := cond.(*ssa.UnOp); isNot && u.Op == token.NOT {
+						cond = u.X
+						want = true
+					}
+					cc, isCall := cond.(*ssa.Call)
+					if !isCall || callMethodName(cc) != "Synchronized" || callReceiver(cc) != recv {
+						continue
+					}
+					if f.Branch == want {
+						guarded = true
+					}
+				}
+				n++
+				key := b.Key()
+				if n > 1 {
+					key = fmt.Sprintf("%s#%d", key, n)
+				}
+				r.Decide(guarded, rule, key, c.Pos(call.Pos()), fmt.Sprintf("reached only when Synchronized() of the same instance was false: %v", guarded))
+			}
+		}
+	}
+}
+
+// fromArgs: v is an element of a list parameter, possibly type-asserted or converted.
+func fromArgs(v ssa.Value, depth int) bool {
+	if depth > 6 {
+		return false
+	}
+	if _, _, ok := listElemLoad(v); ok {
+		return true
+	}
+	switch x := v.(type) {
+	case *ssa.TypeAssert:
+		return fromArgs(x.X, depth+1)
+	case *ssa.Extract:
+		return fromArgs(x.Tuple, depth+1)
+	case *ssa.ChangeInterface:
+		return fromArgs(x.X, depth+1)
+	case *ssa.MakeInterface:
+		return fromArgs(x.X, depth+1)
+	case *ssa.Phi:
+		for _, e := range x.Edges {
+			if fromArgs(e, depth+1) {
+				return true
+			}
+		}
+	}
+	return false
+}
+
+func callMethodName(call *ssa.Call) string {
+	if call.Call.IsInvoke() {
+		return call.Call.Method.Name()
+	}
+	if g := call.Call.StaticCallee(); g != nil && g.Signature.Recv() != nil {
+		return g.Name()
+	}
+	return ""
+}
+
+func callReceiver(call *ssa.Call) ssa.Value {
+	if call.Call.IsInvoke() {
+		return call.Call.Value
+	}
+	if len(call.Call.Args) > 0 {
+		return call.Call.Args[0]
+	}
+	return nil
 }
 
 func c17pair(c *core.Ctx, r *core.Reporter) {
